@@ -107,3 +107,62 @@ func verifAttrsGated(x *sshfx.Attributes) VerifAttrs {
 	}
 	return a
 }
+
+// verifFailReader delivers the first n bytes of b in pieces of at most step bytes and then fails with a non-EOF error
+// (zeroFirst: the failing Read itself returns no bytes; otherwise a transport may also fail with bytes delivered).
+type verifFailReader struct {
+	b    []byte
+	n    int
+	step int
+	read int
+}
+
+type verifTransportErr struct{}
+
+func (verifTransportErr) Error() string { return "verif: transport failed" }
+
+func (r *verifFailReader) Read(p []byte) (int, error) {
+	if r.read >= r.n {
+		return 0, verifTransportErr{}
+	}
+	k := r.n - r.read
+	if k > len(p) {
+		k = len(p)
+	}
+	if r.step > 0 && k > r.step {
+		k = r.step
+	}
+	copy(p, r.b[r.read:r.read+k])
+	r.read += k
+	return k, nil
+}
+
+// VerifRecvPacketFail runs recvPacket (codec A framing) on a reader that delivers input[:failAt] (in pieces of at most
+// step bytes; 0 = as asked) and then fails with an error that is not io.EOF.
+func VerifRecvPacketFail(input []byte, failAt, step int, withAlloc bool) (errKind string, consumed int, panicked bool) {
+	defer func() {
+		if r := recover(); r != nil {
+			errKind, panicked = "panic", true
+		}
+	}()
+	var alloc *allocator
+	if withAlloc {
+		alloc = newAllocator()
+	}
+	fr := &verifFailReader{b: input, n: failAt, step: step}
+	_, _, err := recvPacket(fr, alloc, 1)
+	return VerifErrKind(err), fr.read, false
+}
+
+// VerifReadPacketBFail: the same for the codec-B frame reader (RawPacket.ReadFrom).
+func VerifReadPacketBFail(input []byte, failAt, step int, maxLen uint32) (errKind string, consumed int, panicked bool) {
+	defer func() {
+		if r := recover(); r != nil {
+			errKind, panicked = "panic", true
+		}
+	}()
+	fr := &verifFailReader{b: input, n: failAt, step: step}
+	var raw sshfx.RawPacket
+	err := raw.ReadFrom(fr, nil, maxLen)
+	return VerifErrKind(err), fr.read, false
+}
